@@ -10,7 +10,7 @@ from fractions import Fraction as F
 from mc import domains as D
 from mc.engine import InputPart, Viol
 from mc.models import ival
-from mc.props.common import IT, PT, Textgrid, errors, PE, call, ents, wellformed, canon
+from mc.props.common import IT, PT, Textgrid, errors, PE, call, ents, wellformed, canon, snap_tg
 
 RMODES = ("silence", "warning", "error")
 OFFS = (-5.0, -4.0, -2.5, -2.0, -1.0, -0.5, 0.0, 0.5, 1.0, 3.0)
@@ -139,7 +139,16 @@ def _mk_tg(names, tag, hi, narrow=False):
 def _check_append_tg(case):
     NA, NB, flag, ha, hb, narrowA, narrowB = case
     A, B = _mk_tg(NA, "A", ha, narrowA), _mk_tg(NB, "B", hb, narrowB)
+    snapA, snapB = snap_tg(A), snap_tg(B)
     st, R, out = call(A.appendTextgrid, B, flag)
+    if st == "ok":
+        # the operands are unchanged, and using the SAME receiver again gives the same result
+        if snap_tg(A) != snapA or snap_tg(B) != snapB:
+            return 1, "!", None, [Viol("appendTextgrid-mutated-operand", f"names {NA} + {NB} flag={flag}: an operand changed: A {snapA} -> {snap_tg(A)}")]
+        st_again, R2, _ = call(A.appendTextgrid, B, flag)
+        if st_again != "ok" or snap_tg(R2) != snap_tg(R):
+            return 2, "!", None, [Viol("appendTextgrid-history-dependent", f"names {NA} + {NB} flag={flag}: appending a second time to the same receiver gives "
+                                                                           f"{snap_tg(R2) if st_again == 'ok' else R2!r}, first time {snap_tg(R)}")]
     tag = (f"appendTextgrid names {NA} + {NB} onlyMatchingNames={flag} maxA={ha} maxB={hb} "
            f"tier spans narrower than the textgrid: A={narrowA} B={narrowB}")
     if st == "exc":
